@@ -28,8 +28,13 @@ from harness.common import Ctx, REPO, coq_bool, coq_list, coq_nat, coq_string, g
 
 SCRATCH = "/var/tmp/cache/c18db"
 USER_TABLES = ["customers", "__splink__df_concat", "__splink__df_predict", "r", "blocked_with_cols",
-               "__splink__df_concat_with_tf_0a1b2c3d4"]
-USER_VIEWS = ["customer_view", "representatives"]
+               "__splink__df_concat_with_tf_0a1b2c3d4", "people"]
+USER_VIEWS = ["customer_view", "representatives", "Staff"]
+# user-owned tables with the schema of Splink tables: targets of the register_* entry points that take a table NAME
+SLOT_TABLES = {"cwtf": "user_nodes_with_tf", "predict": "user_predictions", "tf:first_name": "user_tf_first_name"}
+LABELS_TABLE = "user_labels"
+# names that differ from an existing user object only in letter case (the engines resolve names case-insensitively)
+CASE_VARIANTS = ["People", "PEOPLE", "staff", "STAFF", "Customers", "CUSTOMER_VIEW", "R"]
 CALLER_RE = X.UID_NAMES
 
 HEADER = X.HEADER + """
@@ -67,6 +72,7 @@ class CWorld(X.World):
             con.execute(f"create table {t} as select {i} as a, 'u{i}' as b union all select {i + 1}, 'v{i}'")
         con.execute(f"create view {USER_VIEWS[0]} as select * from customers")
         con.execute(f"create view {USER_VIEWS[1]} as select a + 1 as a1 from r")
+        con.execute(f"create view {USER_VIEWS[2]} as select a, b from people")
         if backend == "sqlite":
             con.commit()
         self.user_names = set(USER_TABLES + USER_VIEWS)
@@ -80,6 +86,24 @@ class CWorld(X.World):
         self.user_names.add(self.table)
         self.caller_names: set[str] = set()
         self.fx715 = False
+        self.frames: dict = {}
+        self.named_predict = False
+        # user-owned copies of a concat_with_tf table, a predictions table, a term-frequency table and a labels table
+        lk = self.linker
+        copies = {SLOT_TABLES["cwtf"]: compute_df_concat_with_tf_name(lk), SLOT_TABLES["predict"]: lk.inference.predict().physical_name,
+                  SLOT_TABLES["tf:first_name"]: lk.table_management.compute_tf_table("first_name").physical_name}
+        for user, phys in copies.items():
+            self.con.execute(f"create table {user} as select * from {phys}")
+        lab = pd.DataFrame(X.label_rows(self.table))
+        if backend == "duckdb":
+            self.con.register("__c18_lab", lab)
+            self.con.execute(f"create table {LABELS_TABLE} as select * from __c18_lab")
+            self.con.unregister("__c18_lab")
+        else:
+            lab.to_sql(LABELS_TABLE, self.con, index=False)
+        lk.table_management.invalidate_cache()        # back to a clean linker: no Splink table, empty cache
+        self.reset_trackers()
+        self.user_names |= set(copies) | {LABELS_TABLE}
 
     # catalog: every table and view with its kind
     def catalog(self) -> list[tuple[str, str]]:
@@ -151,11 +175,43 @@ class CWorld(X.World):
                     if "already exists" not in str(e):
                         return term, f"ValueError: {e}"
                 return term, None
+            if kind == "reg_linker":
+                # a Linker over a dataframe registered under an alias: register_multiple_tables(overwrite=False)
+                from splink import Linker
+                name = op[1]
+                term = f"(CRegisterTable {coq_string(name)} false 7)"
+                try:
+                    Linker(pd.DataFrame(X.data_rows(0)), X.settings_creator(), self.api, input_table_aliases=[name])
+                    su.quiet()
+                except ValueError as e:
+                    if "already exists" not in str(e):
+                        return term, f"ValueError: {e}"
+                return term, None
+            if kind == "regname":
+                slot, table = op[1], SLOT_TABLES[op[1]]
+                tm = self.linker.table_management
+                if slot == "cwtf":
+                    tm.register_table_input_nodes_concat_with_tf(table)
+                    cslot = "SlotCwtf"
+                elif slot == "predict":
+                    tm.register_table_predict(table)
+                    self.named_predict = True
+                    cslot = "SlotPredict"
+                else:
+                    tm.register_term_frequency_lookup(table, slot.split(":")[1])
+                    cslot = f"(SlotTf {coq_string(slot.split(':')[1])})"
+                return f"(CRegisterByName {cslot} {coq_string(table)})", None
+            if kind == "handle":
+                name = op[1]
+                tm = self.linker.table_management
+                self.frames[name] = tm.register_labels_table(name) if name == LABELS_TABLE else tm.register_table(name, "alias_of_" + name)
+                return f"(CHandleByName {coq_string(name)})", None
             if kind == "dropu":
                 _, name, force = op
                 term = f"(CDropTable {coq_string(name)} {coq_bool(force)})"
                 try:
-                    self.api.table_to_splink_dataframe(name, name).drop_table_from_database_and_remove_from_cache(
+                    frame = self.frames.get(name) or self.api.table_to_splink_dataframe(name, name)
+                    frame.drop_table_from_database_and_remove_from_cache(
                         force_non_splink_table=force)
                 except ValueError as e:
                     if "not a table created by Splink" not in str(e):
@@ -168,11 +224,19 @@ class CWorld(X.World):
                 res = compare_records(r1, r2, self.rt_settings, self.api, use_sql_from_cache=bool(op[1]))
                 cached = res.physical_name.startswith("__splink__realtime_compare_records_")
                 return f"(CRealtime {coq_bool(cached)})", None
+            if kind == "inv":
+                self.named_predict = False
             if kind == "debug":
                 self.linker._debug_mode = bool(op[1])
                 return f"(COp (SetDebug {coq_bool(op[1])}))", None
             term, raised = self.apply(op)
             return (f"(COp {term})" if term else None), raised
+
+
+def compute_df_concat_with_tf_name(lk) -> str:
+    from splink.internals.pipeline import CTEPipeline
+    from splink.internals.vertically_concatenate import compute_df_concat_with_tf
+    return compute_df_concat_with_tf(lk, CTEPipeline()).physical_name
 
 
 def coq_cinit(w: CWorld, fixes: dict) -> str:
@@ -196,17 +260,24 @@ def gen_history(ctx: Ctx, n: int, fixes: dict) -> list[tuple]:
     rng = ctx.rng
     hist = []
     for _ in range(n):
-        k = rng.choices(["c07", "reg", "dropu", "rt", "del", "inv"], [10, 3, 2, 3, 2, 1])[0]
+        k = rng.choices(["c07", "reg", "dropu", "rt", "del", "inv", "regname", "handle", "reg_linker"],
+                        [10, 4, 3, 3, 2, 1, 3, 1, 1])[0]
         if k == "c07":
             op = C07.gen_history(ctx, 1, fixes)[0]
             if op[0] == "chg":
                 op = ("predict",)
             hist.append(op)
         elif k == "reg":
-            name = rng.choice(["caller_t1", "caller_t2", "customers", "r", "__splink__df_concat", "customer_view"])
+            name = rng.choice(["caller_t1", "caller_t2", "customers", "r", "__splink__df_concat", "customer_view"] + CASE_VARIANTS)
             hist.append(("reg", name, False, rng.randint(1, 5)))
+        elif k == "reg_linker":
+            hist.append(("reg_linker", rng.choice(CASE_VARIANTS + ["people", "customers"])))
+        elif k == "regname":
+            hist.append(("regname", rng.choice(list(SLOT_TABLES))))
+        elif k == "handle":
+            hist.append(("handle", rng.choice([LABELS_TABLE, "customers", "people"] + list(SLOT_TABLES.values()))))
         elif k == "dropu":
-            hist.append(("dropu", rng.choice(USER_TABLES + ["caller_t1"]), False))
+            hist.append(("dropu", rng.choice(USER_TABLES + ["caller_t1", LABELS_TABLE] + list(SLOT_TABLES.values())), False))
         elif k == "rt":
             hist.append(("rt", rng.random() < 0.6 and fixes["fx715"]))
         else:
@@ -235,6 +306,8 @@ def run_history(ctx: Ctx, backend: str, hist: list[tuple], fixes: dict, tag: str
             continue                      # completeness_chart emits SQL SQLite cannot parse (loud, outside C18)
         if op[0] == "sbl":
             op = ("cluster", op[1])       # single best links needs source datasets; the catalog world is dedupe_only
+        if w.named_predict and op[0] in ("acc_col", "err_col"):
+            op = ("predict",)             # with a user table registered as __splink__df_predict these fail loudly (no label column)
         term, raised = w.capply(op)
         done.append(op)
         if raised:
